@@ -213,6 +213,13 @@ int main(int argc, char** argv)
     // quick: crash points only in the last operation of these histories (an address was acknowledged by the first operation and the
     // second one rewrites the same descriptor record: again an address, a clean restart's top-ups, a reserve+return)
     const std::set<std::string> quick_crash{"R0 R0", "C3 C3", "R3 X", "C0 V0"};
+    // thorough: every single operation; every pair where an address was acknowledged by the first operation and the second
+    // one rewrites the same descriptor record (the same request again, a clean restart, reserve+return on the change descriptor)
+    auto thorough_crash = [&](const History& h) {
+        if (h.size() == 1) return true;
+        if (h.size() != 2 || h[0] >= 8) return false;
+        return h[1] == h[0] || h[1] == 12 || (h[0] / 4 == 1 && h[1] == 8 + h[0] % 4);
+    };
     History replay_hist;
     if (!vx::ctx().replay.empty()) {
         std::ifstream f(vx::ctx().replay);
@@ -321,7 +328,7 @@ int main(int argc, char** argv)
                     if (o.path.rfind("OP ", 0) == 0) r.last_op_mark = k;
                 }
                 n_hist++;
-                bool crash = !replay_hist.empty() || (big ? depth <= crash_depth : quick_crash.count(HistStr(r.h)) > 0);
+                bool crash = !replay_hist.empty() || (big ? thorough_crash(r.h) : quick_crash.count(HistStr(r.h)) > 0);
                 bool torn = !replay_hist.empty() || depth <= torn_depth;
                 vxc::State all;
                 all.j = r.log.ops.size(); all.k = r.log.ops.size(); all.mode = "clean";
@@ -330,7 +337,15 @@ int main(int argc, char** argv)
                     n_crash_hist++;
                     size_t from = wc::StableFrom(r.log, r.last_op_mark);
                     size_t en = 0;
-                    for (auto& ps : wc::DistinctStates(r.log, from, initial, true, true, torn, &en)) per_hist[i].push_back({i, ps.st, ps.content, false});
+                    // order: power-loss states losing the most work first, interleaved with kill states from the latest crash point backwards
+                    std::vector<wc::PickedState> pl, kl;
+                    for (auto& ps : wc::DistinctStates(r.log, from, initial, true, true, torn, &en)) (ps.st.mode == "kill" ? kl : pl).push_back(ps);
+                    std::stable_sort(pl.begin(), pl.end(), [](const wc::PickedState& a, const wc::PickedState& b) { return a.st.k - a.st.j > b.st.k - b.st.j; });
+                    std::stable_sort(kl.begin(), kl.end(), [](const wc::PickedState& a, const wc::PickedState& b) { return a.st.k > b.st.k; });
+                    for (size_t x = 0; x < std::max(pl.size(), kl.size()); x++) {
+                        if (x < pl.size()) per_hist[i].push_back({i, pl[x].st, pl[x].content, false});
+                        if (x < kl.size()) per_hist[i].push_back({i, kl[x].st, kl[x].content, false});
+                    }
                     n_states_enum += en;
                 }
             }
@@ -421,7 +436,7 @@ int main(int argc, char** argv)
     E.exhaustive = !cut_short;
     E.rule = "histories over {R_t GetNewDestination, C_t GetNewChangeDestination, V_t reserve+return a change address, X clean restart} x 4 output types, breadth-first to depth " +
              std::to_string(max_depth) + ", merged when the DB records, every descriptor manager's (next_index, range_end, max_cached_index) and the set of handed-out addresses coincide; "
-             "per history the complete op log (clean close) and, " + (big ? "for every history to depth " + std::to_string(crash_depth) : std::string("for the histories {R0 R0} {C3 C3} {R3 X} {C0 V0}")) +
+             "per history the complete op log (clean close) and, " + (big ? std::string("for every single operation and every pair {a b} with a an address request and b the same request, X, or V on the same change descriptor") : std::string("for the histories {R0 R0} {C3 C3} {R3 X} {C0 V0}")) +
              ", every crash state with crash point in the last operation (kill: every op-log prefix" +
              (torn_depth ? ", torn last write 1/half/n-1 bytes to depth " + std::to_string(torn_depth) : std::string()) +
              "; power loss: every (cut, crash point) with the synced ops surviving), deduplicated by materialised bytes, each reloaded in a fresh process that requests 3 receiving + 3 change addresses of each type. "
@@ -429,7 +444,7 @@ int main(int argc, char** argv)
     E.assume("a crash point inside an earlier operation of a history is covered as the last-operation crash point of the shorter history (the recorder is deterministic: fixed keys, mock time, fixed PRNG stream, canonical process image; checked by recording one history twice)");
     E.assume("durability model of vx/crash.h: a write is durable once its file was fsync'ed afterwards; create/unlink once the directory (or file) was synced; no reordering beyond loss of the unsynced suffix");
     E.assume("V_t models a failed CreateTransaction: the reserved address is given back and is not counted as handed out");
-    if (vx::ctx().replay.empty()) {
+    if (vx::ctx().replay.empty() && vx::rep().violations == 0) {
         if (pool.counts["unloadable"]) { printf("HARNESS-ERROR property=C62 %llu crash states could not be reloaded: distinctness cannot be judged there (see samples; wallet loadability is C43)\n", (unsigned long long)pool.counts["unloadable"]); vx::finish(); return 2; }
         if (!cut_short && (pool.counts["inflight_reissued"] == 0 || pool.counts["inflight_consumed"] == 0)) {
             printf("HARNESS-ERROR property=C62 vacuous: crash points never straddled the persistence of next_index (reissued=%llu consumed=%llu)\n", (unsigned long long)pool.counts["inflight_reissued"], (unsigned long long)pool.counts["inflight_consumed"]);
